@@ -73,6 +73,15 @@ def gen_arrays(ctx):
         if ctx.rng.random() < 0.5:
             m = sorted(m)
         out.append(np.array(m, dtype=dt))
+    # entries at the ends of the integer type: differences of exactly 2^(bits-1) wrap, abs(min) == min
+    for dt in (np.int8, np.int16, np.int32, np.int64):
+        ii = np.iinfo(dt); half = 2 ** (ii.bits - 2)
+        for pair in ((ii.min, 0), (-half, half), (ii.min, ii.max), (ii.min + 1, 1), (ii.max, -1), (0, ii.min)):
+            c = ctx.rng.randint(1, 2); other = ctx.rng.randint(-3, 3)
+            m = [[pair[0]] + [other] * (c - 1), [pair[1]] + [other] * (c - 1)]
+            if ctx.rng.random() < 0.5:
+                m.append(list(m[0]))
+            out.append(np.array(m, dtype=dt))
     # a first row made of the same repeated small value (-1, 0, ...): placeholders / sentinels must not match real data
     for v in (-1, 0, -1, 1, -2, 255):
         r = ctx.rng.randint(1, 4); c = ctx.rng.randint(1, 3)
